@@ -17,7 +17,7 @@ unsigned case_timeout_s() { return 1800; }
 // cpc_union_mixed: input A of lg_k+2 over keys [0, 0.7n) and input B of lg_k over keys [0.3n, n) (40% of the keys are in
 // both) into a union of lg_k; the order alternates with the trial (finer input first / last).
 // cpc_union_hires: union results (ICON estimate and bounds) at small lg_k with thousands of trials, additionally checked with
-// the one-sided high-resolution coverage clause (the ICON interval is widest, and most asymmetric, at lg_k 4..7).
+// the high-resolution interval-coverage clause (kappa-scaled tolerance, vf/c06_common.hpp) (the ICON interval is widest, and most asymmetric, at lg_k 4..7).
 enum Fam { F_CPC, F_CPC_UNION, F_CPC_UNION_MIXED, F_CPC_UNION_HIRES, F_N };
 static const char* FAM_NAME[] = {"cpc", "cpc_union", "cpc_union_mixed", "cpc_union_hires"};
 typedef std::allocator<uint8_t> AL;
@@ -34,7 +34,7 @@ static std::vector<Cell> build_cells(bool thorough) {
   else thin = {{5, 3000, NMULTS - 1}, {8, 3000, NMULTS - 1}, {11, 1500, NMULTS - 1}};
   for (uint8_t lg = 4; lg <= 7; ++lg)
     for (int mi : {7, 10}) {    // 8k and 64k
-      Cell x; x.fam = F_CPC_UNION_HIRES; x.lg_k = lg; x.mi = mi; x.trials = thorough ? 12000 : 4000; x.n = cardinality(lg, mi);
+      Cell x; x.fam = F_CPC_UNION_HIRES; x.lg_k = lg; x.mi = mi; x.trials = thorough ? 16000 : (lg <= 5 ? 10000 : 4000); x.n = cardinality(lg, mi);
       x.cost = static_cast<double>(x.n) * x.trials * 1.4 + 5000.0 * x.trials;
       cells.push_back(x);
     }
@@ -116,7 +116,10 @@ void run_case(uint64_t idx, Rng& r) {
   const std::string ctx = "family=" + fam + " lg_k=" + std::to_string(cell.lg_k) + " n=" + std::to_string(n);
   // small-range cells: the error is a rare collision event; the per-trial window replaces bias/spread
   const CellResult R = check_cell(tr, n, published_rse(cell.fam >= F_CPC_UNION, cell.lg_k), fam, ctx, !small, true);
-  if (cell.fam == F_CPC_UNION_HIRES) { check_one_sided(tr, n, fam, ctx); count("mc_hires_cells"); }
+  if (cell.fam == F_CPC_UNION_HIRES) {
+    const std::string rec = check_interval_miss(tr, n, fam, ctx); count("mc_hires_cells");
+    sample("{\"hires_cell\":" + jstr(rec) + "}");
+  }
   if (cell.fam == F_CPC) { check_cell(icon, n, published_rse(true, cell.lg_k), "cpc_icon", ctx + " (icon estimate/bounds of an unmerged sketch)", !small, true); count("mc_icon_cells"); }
   count("mc_cells");
   count("mc_trials", cell.trials);
